@@ -104,6 +104,8 @@ func c19Run(env *core.Env, idx int) core.CaseResult {
 		features map[string]int
 	}
 	recs := map[string]*rec{}
+	used := new(spec.Swagger) // one value that every document of the batch is decoded into, one after the other
+	encodeErr := map[string]string{}
 	sibling, _ := json.Marshal(gen.SiblingDoc())
 	for k := 0; k < c19Batch; k++ {
 		g := gen.NewDocGen(rng)
@@ -131,7 +133,14 @@ func c19Run(env *core.Env, idx int) core.CaseResult {
 		rt, err := json.Marshal(sw)
 		if err != nil {
 			res.Count("unencodable", 1)
+			encodeErr[id] = err.Error()
 			continue
+		}
+		// the same document decoded into a value that has held another document before
+		if err, pan := guard(func() error { return json.Unmarshal(text, used) }); err == nil && pan == "" {
+			if ru, err := json.Marshal(used); err == nil {
+				_ = enc.Encode(map[string]interface{}{"id": id, "stage": "roundtrip-into-a-used-value", "doc": json.RawMessage(ru)})
+			}
 		}
 		res.Evals++
 		_ = enc.Encode(map[string]interface{}{"id": id, "stage": "roundtrip", "doc": json.RawMessage(rt)})
@@ -213,7 +222,10 @@ func c19Run(env *core.Env, idx int) core.CaseResult {
 				res.Count("feature."+c, n)
 			}
 		}
-		for _, stage := range []string{"roundtrip", "expanded"} {
+		if e, bad := encodeErr[id]; bad {
+			res.Violate("valid document cannot be encoded again: "+errClass(fmt.Errorf("%s", e)), e, map[string]interface{}{"input": json.RawMessage(r.text)})
+		}
+		for _, stage := range []string{"roundtrip", "roundtrip-into-a-used-value", "expanded"} {
 			v, ok := verdicts[id][stage]
 			if !ok {
 				continue
@@ -243,7 +255,7 @@ func init() {
 		NumCases: c19NumCases,
 		Run:      c19Run,
 		Floors: func(env *core.Env) []string {
-			return []string{"valid-inputs", "validated.roundtrip", "validated.expanded", "nontrivial-documents", "feature.schema.$ref", "feature.response.headers", "feature.securityScheme.type",
+			return []string{"valid-inputs", "validated.roundtrip", "validated.roundtrip-into-a-used-value", "validated.expanded", "nontrivial-documents", "feature.schema.$ref", "feature.response.headers", "feature.securityScheme.type",
 				"feature.securityScheme.flow", "feature.parameter.in", "feature.pathItem.$ref", "feature.response.$ref", "feature.parameter.$ref"}
 		},
 		MaxWorkers:  16,
